@@ -403,85 +403,11 @@ class RepeatMinMax(Expression):
         return f"{self.expression}{{{self.min}, {self.max}}}"
 
     def parse(self, state: ParserState, pairs: list[Pair]) -> bool:
-        children: list[Pair] = []
-        accumulator: list[Pair] = []
-        match_count = 0
-        state.checkpoint()
-
-        matched = self.expression.parse(state, accumulator)
-
-        if not matched:
-            state.restore()
-            return False
-
-        match_count += 1
-
-        while True:
-            state.checkpoint()
-            state.parse_trivia(children)
-            matched = self.expression.parse(state, children)
-
-            if not matched:
-                state.restore()
-                break
-
-            match_count += 1
-            state.ok()
-            accumulator.extend(children)
-            children.clear()
-
-            if match_count == self.max:
-                break
-
-        if match_count >= self.min and match_count <= self.max:
-            pairs.extend(accumulator)
-            state.ok()
-            return True
-
-        state.restore()
-        return False
+        return _unrolled(self).parse(state, pairs)
 
     def generate(self, gen: Builder, matched_var: str, pairs_var: str) -> None:
         """Emit Python code for a bounded repetition expression (E{min,max})."""
-        gen.writeln(f"# <RepeatMinMax min={self.min} max={self.max}>")
-
-        start_pos = gen.new_temp("start")
-        tmp_pairs = gen.new_temp("children")
-        count_var = gen.new_temp("count")
-
-        gen.writeln(f"{start_pos} = state.pos")
-        gen.writeln(f"{tmp_pairs}: list[Pair] = []")
-        gen.writeln(f"{count_var} = 0")
-
-        gen.writeln("while True:")
-        with gen.block():
-            gen.writeln("state.checkpoint()")
-            self.expression.generate(gen, matched_var, tmp_pairs)
-            gen.writeln(f"if {matched_var}:")
-            with gen.block():
-                gen.writeln(f"{count_var} += 1")
-                gen.writeln("state.ok()")
-                # Stop if we've already reached the maximum
-                gen.writeln(f"if {count_var} >= {self.max}:")
-                with gen.block():
-                    gen.writeln("break")
-                gen.writeln(f"parse_trivia(state, {tmp_pairs})")
-            gen.writeln("else:")
-            with gen.block():
-                gen.writeln("state.restore()")
-                gen.writeln("break")
-
-        gen.writeln(f"if {count_var} < {self.min}:")
-        with gen.block():
-            gen.writeln(f"state.pos = {start_pos}")
-            gen.writeln(f"{matched_var} = False")
-        gen.writeln("else:")
-        with gen.block():
-            gen.writeln(f"{matched_var} = True")
-            # Append successful children to the parent pair list
-            gen.writeln(f"{pairs_var}.extend({tmp_pairs})")
-
-        gen.writeln("# </RepeatMinMax>")
+        _unrolled(self).generate(gen, matched_var, pairs_var)
 
     def children(self) -> list[Expression]:
         """Return this expression's children."""
